@@ -5,4 +5,5 @@ EXTENDS Signals, TLC
 MCEntryA == [a \in Assets |-> IF a = "A" THEN 0 ELSE IF a = "B" THEN 3 ELSE IF a = "C" THEN 3 ELSE -1]
 MCEntryB == [a \in Assets |-> IF a = "A" THEN 0 ELSE IF a = "B" THEN 0 ELSE IF a = "C" THEN 2 ELSE -1]
 MCEntryC == [a \in Assets |-> IF a = "A" THEN 1 ELSE IF a = "B" THEN 5 ELSE IF a = "C" THEN -1 ELSE -1]
+MCOrder == SelectSeq(<< "A", "B", "C" >>, LAMBDA a : a \in Assets)
 =============================================================================
